@@ -115,13 +115,15 @@ theorem allow_loop (n : Nat) : ∀ (l : List Method) (i : Nat), n = i + l.length
 theorem response_writer :
     Extracted.responseWriter = none ∨
     ∃ f, Extracted.responseWriter = some f ∧ ∀ r : Response, f r = r.pieces := by
-  right
-  refine ⟨_, rfl, ?_⟩
-  intro r
-  simp only [Extracted.forEnum, allow_loop r.allow.length r.allow 0 (by simp)]
-  unfold Response.pieces
-  cases r.contentLength <;> cases r.body <;> cases r.deprecation <;> cases r.acceptEncoding <;>
-    simp [Header.raw]
+  first
+    | exact Or.inl rfl      -- the translator did not understand the writer: fall back to the correspondence
+    | (right
+       refine ⟨_, rfl, ?_⟩
+       intro r
+       simp only [Extracted.forEnum, allow_loop r.allow.length r.allow 0 (by simp)]
+       unfold Response.pieces
+       cases r.contentLength <;> cases r.body <;> cases r.deprecation <;> cases r.acceptEncoding <;>
+         simp [Header.raw])
 
 /-! Non-vacuity is reported per run: `check` records which items the translator found (`extracted` in the evidence);
     on the unchanged tree all of them are. -/
